@@ -61,7 +61,8 @@ TotalI(w, items, k) == SumOver(w, k, {a \in Accts(w) : k \in DOMAIN w.acct[a].es
 ---------------------------------------------------------------------------
 \* history: supply per storage key, nonces ever issued per token
 SupplyOf(h, k) == IF k \in DOMAIN h.supply THEN h.supply[k] ELSE 0
-Hist0(w) == [supply |-> LET items == FlatItems(w.msgs) IN [k \in AllKeys(w) |-> TotalI(w, items, k)], maxn |-> [t \in {} |-> 0], made |-> {}, flagged |-> {}]
+Totals(w) == LET items == FlatItems(w.msgs) IN [k \in AllKeys(w) |-> TotalI(w, items, k)]
+Hist0(w) == [supply |-> Totals(w), tsupply |-> Totals(w), maxn |-> [t \in {} |-> 0], made |-> {}, flagged |-> {}]
 MaxN(h, t) == IF t \in DOMAIN h.maxn THEN h.maxn[t] ELSE 0
 Bump(h, k, d) == [h EXCEPT !.supply = Put(@, k, SupplyOf(h, k) + d)]
 
@@ -90,7 +91,22 @@ HistStep(h, w, ev) ==
   IF ev.fn \in {"ESDTFreeze", "ESDTPause"} /\ NArgs(ev) >= 1 THEN [h1 EXCEPT !.flagged = @ \cup {Arg(ev,1).h}] ELSE h1
 
 ---------------------------------------------------------------------------
+\* C01's own accounting (tsupply): the sums are invariant under transfers, deliveries and refunds.  Any OTHER call re-bases them to what the
+\* world shows afterwards - what a supply operation, a key-value save or any other function does to the sums is the question of C02 / C05,
+\* not of C01.  Tokens entering the modelled world through a directly executed destination-side ESDTTransfer are added as stated.
+TransferFns == {"ESDTTransfer", "ESDTNFTTransfer", "MultiESDTNFTTransfer"}
+TSupplyOf(h, k) == IF k \in DOMAIN h.tsupply THEN h.tsupply[k] ELSE 0
+HistT(h, ev, w2) ==
+  IF ~Call(ev) THEN h
+  ELSE IF ev.fn \notin TransferFns THEN [h EXCEPT !.tsupply = Totals(w2)]
+  ELSE IF IsOk(ev) /\ ev.fn = "ESDTTransfer" /\ ev.a = "exec" /\ ~ev.snd /\ NArgs(ev) >= 2
+       THEN [h EXCEPT !.tsupply = Put(@, Arg(ev,1).h, TSupplyOf(h, Arg(ev,1).h) + Arg(ev,2).q)]
+  ELSE h
+
 \* C01 / C02 state invariants
+TransferConservation(w, h) ==
+  LET items == FlatItems(w.msgs) IN
+  \A k \in UNION {DOMAIN w.acct[a].esdt : a \in Accts(w)} \cup ItemKeys(items) \cup DOMAIN h.tsupply : TotalI(w, items, k) = TSupplyOf(h, k)
 Conservation(w, h) ==
   LET items == FlatItems(w.msgs) IN
   \A k \in UNION {DOMAIN w.acct[a].esdt : a \in Accts(w)} \cup ItemKeys(items) \cup DOMAIN h.supply : TotalI(w, items, k) = SupplyOf(h, k)
